@@ -132,6 +132,13 @@ def verify_function(tu, fname, externs, init=pycfunction_init, config=None,
       paths: n
       calls/outcomes summaries produced by `post(ex, finished)`"""
     t0 = time.time()
+    # symbol names must not depend on what the worker process verified
+    # before (solver heuristics are sensitive to names): the uid counters
+    # restart for every function
+    import itertools
+    from . import exec as _x
+    _x.Region._n = itertools.count()
+    _x.PyObj._n = itertools.count()
     rep = {'function': fname, 'file': tu['cfile'], 'status': 'ok',
            'obligations': [], 'paths': 0, 'trusted': [], 'post': None,
            'reason': None}
